@@ -20,7 +20,7 @@ import (
 func init() {
 	Register(&Monitor{
 		ID: "C06",
-		Rule: "per case: '$x op $y' for + - * div mod and '-$x' over all boundary x boundary pairs of a sampled boundary subset plus random pairs (bit patterns, divisors in (-1,1), ties, >2^63), floor/ceiling/round over boundary doubles, every k+-0.5 for |k|<=20 and values around 2^52..2^63, sum()/count() over node-sets of numeric, fractional, negative, whitespace-padded and non-numeric text; arithmetic whose operands are bare element names (among them names spelled like numerals of other languages: nan, inf, Infinity, NaN, e) evaluated from the parent element against the reference model; " +
+		Rule: "per case: '$x op $y' for + - * div mod and '-$x' over all boundary x boundary pairs of a sampled boundary subset plus random pairs (bit patterns, divisors in (-1,1), ties, >2^63), floor/ceiling/round over boundary doubles, every k+-0.5 for |k|<=20 and values around 2^52..2^63, sum()/count() over node-sets of numeric, fractional, negative, whitespace-padded and non-numeric text; arithmetic whose operands are bare element names (among them names spelled like numerals of other languages: nan, inf, Infinity, NaN, e) evaluated from the parent element against the reference model; node-set operands bound as variables and returned by a custom function in shuffled slice order (the operand is the first node in document order); " +
 			"oracle: Go IEEE arithmetic written independently (math.Mod, floor(x)+tie rule, float summation in document order), bit-pattern comparison incl. sign of zero for the operators, NaN-aware without zero sign for round/floor/ceiling; any error (in particular 'xpath query panic') is a violation. distinct_nontrivial = distinct (operation, operand classes, result class)",
 		Assumptions: []string{"the sign of zero is not judged for round/floor/ceiling (the statement is silent on it)"},
 		NCases:      func(tier string) int { return map[string]int{"quick": 2000, "thorough": 80000}[tier] },
@@ -230,6 +230,36 @@ func c06Case(r *evid.Run, tier string, idx int, g *rng.R) {
 				}
 			}
 		}
+	}
+	// node-set operands handed in by the caller (variables, custom functions) in arbitrary slice
+	// order: the operand is number() of the first node in document order, wherever it sits
+	for i := 0; i < 8; i++ {
+		var pick []*adoc.Node
+		for _, vn := range vnodes {
+			if g.P(40) {
+				pick = append(pick, vn)
+			}
+		}
+		if len(pick) < 3 {
+			continue
+		}
+		set := refeval.NodeSet(adoc.SortDoc(pick))
+		lib := append(xsel.NodeSet{}, w.m.Lib(set).(xsel.NodeSet)...)
+		rng.Shuffle(g, lib)
+		w.env.Vars = map[refeval.Name]refeval.Value{{Local: "s"}: set}
+		w.env.Funcs = map[refeval.Name]refeval.Func{{Local: "pick"}: func(refeval.Ctx, refeval.NodeSet, []refeval.Value) (refeval.Value, error) { return set, nil }}
+		binds := []xsel.ContextApply{xsel.WithVariable("s", lib), xsel.WithFunction("pick", func(xsel.Context, ...xsel.Result) (xsel.Result, error) { return lib, nil })}
+		sv := xast.Var{Local: "s"}
+		for _, e := range []xast.Expr{
+			xast.Binary{Op: "+", L: sv, R: xast.N(0)}, xast.Neg{X: sv}, xast.Fn("ceiling", sv), xast.Binary{Op: "*", L: sv, R: xast.N(2)}, xast.Binary{Op: "mod", L: sv, R: xast.N(3)},
+			xast.Fn("number", sv), xast.Fn("floor", xast.Fn("pick")), xast.Binary{Op: "-", L: xast.Fn("pick"), R: sv}, xast.Binary{Op: "div", L: xast.N(1), R: xast.Fn("pick")},
+		} {
+			if v, ok := w.check(r, "nodeset-operand/"+opOf(e), idx, d.Root, e, true, binds...); ok {
+				r.Tab("operator", "caller-ordered-node-set:"+opOf(e), 1)
+				r.Sig("nsop|"+opOf(e)+"|"+bridge.Show(v), true)
+			}
+		}
+		w.env.Vars, w.env.Funcs = nil, nil
 	}
 	// sum / count over node-sets
 	for i := 0; i < 12; i++ {
